@@ -10,13 +10,12 @@ import core
 ARG_POOL = ["-1", "0", "2", "'a'", "None", "(1, 2)"]
 
 
+CALL_IDX = [(1, 4), (2, 6), (3, 4), (1, 6), (2, 4), (3, 6), (1, 1), (2, 2), (3, 3), (4, 4), (5, 5), (6, 6), (1, 2), (2, 3), (4, 5), (5, 6), (6, 1), (1, 3), (3, 5), (4, 6), (5, 1), (6, 2), (2, 5), (4, 1), (5, 2), (6, 3), (1, 5), (3, 1), (4, 2), (5, 3), (6, 4), (2, 1), (3, 2), (4, 3), (5, 4), (6, 5)]
+
+
 def call_seq(n):
     """mirror of CallSeq in PyCore.tla"""
-    out = []
-    for k in range(n):
-        d, i = divmod(k, 6)
-        out.append([ARG_POOL[i], ARG_POOL[(i + d) % 6]])
-    return out
+    return [[ARG_POOL[i - 1], ARG_POOL[j - 1]] for i, j in CALL_IDX[:n]]
 
 
 RUNTIME = '''
